@@ -261,7 +261,7 @@ func twinRuns(t *testing.T, k int) bool {
 // crowded: an earlier call under a context nobody cancels has left n script goroutines behind, all alive (blocked
 // on a channel of the host). A second call that executes go statements of every calling convention and then
 // spins or blocks is cancelled: it must return, however many script goroutines the process already holds.
-func crowded(t *testing.T, n int, k int) bool {
+func crowded(t *testing.T, n int, k int, opts *vm.Options) bool {
 	hold := make(chan int64)
 	e0 := env.NewEnv()
 	e0.Define("hold", hold)
@@ -277,7 +277,7 @@ func crowded(t *testing.T, n int, k int) bool {
 		ctx0, cancel0 := context.WithCancel(context.Background())
 		defer cancel0()
 		done0 := make(chan error, 1)
-		go func() { _, err := vm.ExecuteContext(ctx0, e0, nil, "go w()"); done0 <- err }()
+		go func() { _, err := vm.ExecuteContext(ctx0, e0, opts, "go w()"); done0 <- err }()
 		select {
 		case err := <-done0:
 			if err != nil {
@@ -309,7 +309,7 @@ func crowded(t *testing.T, n int, k int) bool {
 	ctx, cancel := context.WithCancel(context.Background())
 	defer cancel()
 	done := make(chan error, 1)
-	go func() { _, err := vm.ExecuteContext(ctx, e, nil, src); done <- err }()
+	go func() { _, err := vm.ExecuteContext(ctx, e, opts, src); done <- err }()
 	time.Sleep(5 * time.Millisecond)
 	cancel()
 	select {
@@ -346,8 +346,11 @@ func TestRaceC02(t *testing.T) {
 		twinRuns(t, k)
 	}
 	for k := 0; k < 5; k++ {
-		crowded(t, 260+next(500), k)
+		crowded(t, 260+next(500), k, nil)
 	}
+	// once, in numbers beyond any round figure a limit might have (ten thousand and some), and with ONE Options value
+	// for every call of the host, so that whatever an Options value counts counts all of them
+	crowded(t, 10100+next(400), next(5), &vm.Options{})
 	fmt.Printf("deep unwinds took %v\n", time.Since(t0))
 	end = time.Now().Add(d) // the racing rounds keep their full budget
 	for time.Now().Before(end) {
